@@ -239,3 +239,6 @@ def gen_ops(rng, tier, ctx=None):
 
 def nontrivial(line):
     return line if line.startswith("mpq_") else None
+
+# source pins: the C the Lean model mirrors (see tools/pins.py)
+PINS = [('mpq/aors.c', None), ('mpq/mul.c', None), ('mpq/div.c', None), ('mpq/inv.c', None), ('mpq/neg.c', None), ('mpq/abs.c', None), ('mpq/canonicalize.c', None), ('mpq/set.c', None), ('mpq/set_z.c', None), ('mpq/set_si.c', None), ('mpq/set_ui.c', None), ('mpq/set_num.c', None), ('mpq/set_den.c', None), ('mpq/swap.c', None), ('mpq/equal.c', None), ('mpq/md_2exp.c', None), ('mpq/set_d.c', None), ('mpq/set_f.c', None)]
